@@ -582,6 +582,8 @@ pub fn run_client(cfg: &ScenCfg, out: &mut RunOut) {
             let rc = ffi_submit(ch, &Req::ReadHolding { start: 1, count: 1 }, 1, 1000, &c);
             burst.push((c, rc));
         }
+        // a disable that meets the full queue is refused like a request ...
+        let rc_dis_full = unsafe { ffi::rodbus_client_channel_disable(ch) };
         let accepted = burst.iter().filter(|b| b.1 == PE_OK).count();
         let rejected: Vec<&(Ctx, c_int)> = burst.iter().filter(|b| b.1 != PE_OK).collect();
         if rc0 != 0 || accepted != qcap as usize || rejected.iter().any(|b| b.1 != PE_TOO_MANY) {
@@ -615,6 +617,37 @@ pub fn run_client(cfg: &ScenCfg, out: &mut RunOut) {
                 }
             }
         }
+        // ... and the application's retry, once there is room, must take effect: a call that returns OK has
+        // been forwarded (C18: same outcome as Channel::disable, which is never a silent no-op)
+        if rc_dis_full != PE_TOO_MANY {
+            out.violate("C18", "disable_on_full_queue", format!("disable with a full queue returned {} (expected {})", rc_dis_full, PE_TOO_MANY));
+            return;
+        }
+        let before = states.lock().unwrap().states.len();
+        let rc_dis = unsafe { ffi::rodbus_client_channel_disable(ch) };
+        kernel::settle();
+        let tail: Vec<c_int> = states.lock().unwrap().states[before..].iter().map(|s| s.1).collect();
+        if rc_dis != PE_OK || tail != vec![0] {
+            let d = format!("disable refused with a full queue (rc {}), repeated after the queue drained: rc {} and listener states {:?} (expected rc 0 and [Disabled])", rc_dis_full, rc_dis, tail);
+            out.violate("C18", "disable_retry_has_no_effect", d.clone());
+            out.violate("C13", "disable_retry_has_no_effect", d);
+            return;
+        }
+        let closed = peer.as_ref().map(|p| p.remote_closed()).unwrap_or(true);
+        if !closed {
+            out.violate("C13", "disable_keeps_connection", "after disable through the C ABI the connection is still open".into());
+            return;
+        }
+        let before = states.lock().unwrap().states.len();
+        let rc_en = unsafe { ffi::rodbus_client_channel_enable(ch) };
+        kernel::settle();
+        peer = net::stub_accept(addr);
+        let tail: Vec<c_int> = states.lock().unwrap().states[before..].iter().map(|s| s.1).collect();
+        if rc_en != PE_OK || tail != vec![1, 2] || peer.is_none() {
+            out.violate("C18", "enable_after_disable", format!("enable after disable: rc {} states {:?} connected={}", rc_en, tail, peer.is_some()));
+            return;
+        }
+        out.probe("ffi_disable_refused_then_retried");
     }
     // ---- shutdown: pending callbacks complete with Shutdown, afterwards calls report Shutdown
     let pending: Ctx = Arc::new(Mutex::new(CbLog::default()));
